@@ -243,6 +243,53 @@ def r04_4(chk, facts):
                     fn['n'], lt, a, want_op, b, lt, '<' if want_op == '+' else '>', a, 'carry' if want_op == '+' else 'borrow'), None, fn['q'])
     chk.require(n >= 6, 'R04.4: only %d word operations found in the bigint add/subtract loops' % n)
 
+def r04_5(chk, facts):
+    """bigint storage views: a view taken before resize()/reserve() is refreshed before it is used again."""
+    chk.rule('R04.5', 'bigint view freshness: a local holding get_storage_view() of *this is not read after a resize()/reserve() of *this '
+                      'without being re-assigned from get_storage_view() (the view keeps the old pointer and the old length)', floor=8)
+    n = 0; seen = set()
+    for fn in facts.functions:
+        if not fn['file'].endswith('utility/bigint.hpp') or fn.get('body') is None or fn.get('dep') or (fn['file'], fn['l']) in seen: continue
+        if 'basic_bigint' not in (fn.get('cls') or ''): continue
+        # view locals of *this
+        views = {}
+        for x in A.walk_no_lambda(fn['body']):
+            if x.get('k') == 'VarDecl' and x.get('init') is not None:
+                for c in A.calls_in(x['init']):
+                    o = A.strip(c.get('obj'), casts=True) if c.get('obj') is not None else None
+                    if A.callee_name(c) == 'get_storage_view' and (o is None or o.get('k') == 'CXXThisExpr'): views[x['id']] = x['n']
+        if not views: continue
+        seen.add((fn['file'], fn['l']))
+        g = C.CFG(fn['body'])
+        inval = []; defs = {v: [] for v in views}; uses = {v: [] for v in views}
+        for nd in g.rpo:
+            if nd.kind not in ('stmt', 'cond', 'return', 'switch') or not isinstance(nd.ast, dict): continue
+            for c in A.calls_in(nd.ast):
+                o = A.strip(c.get('obj'), casts=True) if c.get('obj') is not None else None
+                if A.callee_name(c) in ('resize', 'reserve') and c.get('k') == 'CXXMemberCallExpr' and (o is None or o.get('k') == 'CXXThisExpr'): inval.append(nd)
+            am = U.assigned_member(nd.ast) if nd.kind == 'stmt' else None
+            for vid, vn in views.items():
+                is_def = False
+                if nd.ast.get('k') == 'DeclStmt' and any(d.get('id') == vid for d in nd.ast.get('decls') or []): is_def = True
+                if am and am[0] == vn and any(A.callee_name(c) == 'get_storage_view' for c in A.calls_in(am[1])): is_def = True
+                if is_def: defs[vid].append(nd)
+                elif any(y.get('k') == 'DeclRefExpr' and y.get('id') == vid for y in A.walk_no_lambda(nd.ast)): uses[vid].append(nd)
+        if not inval: continue
+        chk.analysed(fn)
+        for vid, vn in views.items():
+            n += 1
+            site = U.site(fn, 'view %s' % vn)
+            bad = None
+            for i_ in inval:
+                for u in uses[vid]:
+                    if u is i_: continue
+                    if any(g.can_reach(s2, [u], avoid=defs[vid]) for s2 in i_.succ): bad = (i_, u); break
+                if bad: break
+            if bad is None: chk.ok('R04.5', site, {'function': fn['n'], 'invalidations': len(inval), 'uses': len(uses[vid])})
+            else: chk.fail('R04.5', site, fn['file'], bad[1].line, '%s: `%s` is read at line %s after the storage was resized at line %s without `%s = get_storage_view()`: it still describes the old block' % (
+                fn['n'], vn, bad[1].line, bad[0].line, vn), None, fn['q'])
+    chk.require(n >= 8, 'R04.5: only %d storage views crossing a resize found' % n)
+
 def run(chk, tier, only_rule=None):
     chk.explanation = EXPLANATION
     chk.not_decided = NOT_DECIDED
@@ -252,6 +299,7 @@ def run(chk, tier, only_rule=None):
     r04_2(chk, facts)
     r04_3(chk, facts)
     r04_4(chk, facts)
+    r04_5(chk, facts)
     from . import c01
     c01.r01_7(chk, facts)
     c05.r05_1(chk, facts)
